@@ -1,2 +1,2 @@
 (* Tie.v — all tie files together (for interactive use; property files import only the ones they rely on) *)
-From BMCProps Require Export TieBase TieOps TieCrypto TieSuites TieConn TiePrim TieProc TieFootprint.
+From BMCProps Require Export TieBase TieOps TieCrypto TieSuites TieConn TiePrim TieLin TieProc TieFootprint.
